@@ -13,7 +13,7 @@ Open Scope N_scope.
 
 Section WithOracles.
 Variable fmtv : list N -> list N -> list N.
-Variable fmt_diff : list N -> list N -> list N.
+Variable fmt_diff : list N -> list N -> list N -> list N.
 Variable fmt_pi : list N -> list N.
 Variable fstr : list N -> list N.
 Variable fzero : list N -> bool.
@@ -28,13 +28,13 @@ Definition las_null_text (l : las) : option (list N) :=
   | None => None
   end.
 
-Lemma write_sections_wrap ver b m hs :
-  write_sections fmtv fmt_diff fstr fzero numeq ver (Some b) m = Some hs -> hs_wrap hs = b.
+Lemma write_sections_wrap ver b ifmt m hs :
+  write_sections fmtv fmt_diff fstr fzero numeq ver (Some b) ifmt m = Some hs -> hs_wrap hs = b.
 Proof.
   unfold write_sections. destruct b; cbv zeta;
     (match goal with |- context [match ?x with Some v => _ | None => None end] =>
        destruct x as [v|]; [|discriminate] end);
-    (match goal with |- context [refresh_sss ?a ?b ?c ?d] => destruct (refresh_sss a b c d) as [l2|]; [|discriminate] end);
+    (match goal with |- context [refresh_sss ?a ?b ?c ?d ?e] => destruct (refresh_sss a b c d e) as [l2|]; [|discriminate] end);
     repeat (match goal with |- context [section_lines ?a ?b ?c ?d] =>
               destruct (section_lines a b c d) as [?|]; [|discriminate] end);
     intros [= <-]; reflexivity.
